@@ -106,16 +106,24 @@ func floatOperand(f *feat) bool {
 
 func isCmpOp(op string) bool { return opClass(op) == "cmp" }
 
-// zeroPart: a float or complex constant with a zero component.
+// zeroPart: a float or complex constant with a component that is zero once
+// rounded to float64 (exact zero, or an underflowing tiny value).
 func zeroPart(o opnd) bool {
 	if !o.valid || o.val == nil {
 		return false
 	}
+	if !strings.Contains(o.typ, "float") && !strings.Contains(o.typ, "complex") {
+		return false
+	}
+	isZero := func(v constant.Value) bool {
+		f, _ := constant.Float64Val(constant.ToFloat(v))
+		return f == 0
+	}
 	switch o.val.Kind() {
 	case constant.Int, constant.Float:
-		return (strings.Contains(o.typ, "float") || strings.Contains(o.typ, "complex")) && constant.Sign(o.val) == 0
+		return isZero(o.val)
 	case constant.Complex:
-		return constant.Sign(constant.Real(o.val)) == 0 || constant.Sign(constant.Imag(o.val)) == 0
+		return isZero(constant.Real(o.val)) || isZero(constant.Imag(o.val))
 	}
 	return false
 }
@@ -135,7 +143,14 @@ var rules = []*rule{
 		return f.kind == "arraydecl" && f.op == "ptr" && f.goOK
 	}},
 	{"switch-case-const-not-converted-to-tag-type", divs("accepted", "crash", "value"), func(f *feat) bool {
-		return f.kind == "obs" && f.op == "case"
+		if f.kind != "obs" || f.op != "case" {
+			return false
+		}
+		if !f.goOK {
+			return true
+		}
+		b := bigOf(f.x.val) // accepted by Go: only values beyond int64 misbehave (uint tags)
+		return f.x.valid && b != nil && !b.IsInt64()
 	}},
 	{"signed-overflow-accepted", divs("accepted"), func(f *feat) bool {
 		T, x, ok := convSite(f)
@@ -160,7 +175,7 @@ var rules = []*rule{
 		return f.declHas["iota-fwd-ref"]
 	}},
 	{"arraylen-forward-const-reference-rejected", divs("rejected", "crash"), func(f *feat) bool {
-		return f.kind == "arraydecl" && f.goOK && f.declHas["fwd-ref"]
+		return f.kind == "arraydecl" && f.goOK && f.declHas["fwd-ref"] && f.has["binop"]
 	}},
 	{"shift-of-untyped-float-stays-float", divs("rejected", "type", "value", "crash", "accepted"), func(f *feat) bool {
 		return (f.has["floatshift"] || f.declHas["floatshift"]) && (f.goOK || f.goClass == "overflow")
@@ -184,7 +199,13 @@ var rules = []*rule{
 		return true
 	}},
 	{"typed-const-zero-divisor-not-rejected", divs("accepted"), func(f *feat) bool {
-		return f.kind == "binary" && (f.op == "/" || f.op == "%") && !f.goOK && f.goClass == "divzero" && f.y.valid && !f.y.untyped
+		if f.goOK || f.goClass != "divzero" {
+			return false
+		}
+		if f.kind == "spec" && f.has["quo"] || f.kind == "spec" && f.has["intop"] {
+			return true // const specs (iota, declared type): the divisor is typed or becomes typed through the declaration
+		}
+		return f.kind == "binary" && (f.op == "/" || f.op == "%") && f.y.valid && !f.y.untyped
 	}},
 	{"typed-const-conversion-overflow-accepted", divs("accepted"), func(f *feat) bool {
 		return f.kind == "conv" && !f.goOK && (f.goClass == "overflow" || f.goClass == "truncated") && f.x.valid && !f.x.untyped
@@ -216,7 +237,7 @@ var rules = []*rule{
 	}},
 	{"complex-const-divided-by-real-escaped-panic", divs("crash", "rejected", "value"), func(f *feat) bool {
 		real := f.y.valid && f.y.val != nil && constant.Sign(constant.Imag(constant.ToComplex(f.y.val))) == 0
-		return f.kind == "binary" && f.op == "/" && f.goOK && f.x.kind("complex") && f.y.untyped && real
+		return f.goOK && (f.kind == "binary" && f.op == "/" && f.x.kind("complex") && f.y.untyped && real || f.has["complex-real-quo"])
 	}},
 	{"untyped-rune-quotient-becomes-int", divs("type"), func(f *feat) bool {
 		return f.goOK && (f.kind == "binary" && f.op == "/" && f.x.kind("rune") && f.y.kind("rune") || f.has["rune-quo"] || f.declHas["rune-quo"])
@@ -237,7 +258,7 @@ var rules = []*rule{
 		return f.kind == "spec" && f.has["conv-folded"]
 	}},
 	{"const-decl-integer-quotient-not-truncated", divs("value", "rejected", "crash", "type"), func(f *feat) bool {
-		return f.kind == "spec" && f.goOK && f.has["quo"]
+		return f.kind == "spec" && f.goOK && f.has["int-quo"] && (f.has["floatlit"] || isFloatT(f.T) || isComplexT(f.T))
 	}},
 	{"decl-type-pushed-into-untyped-operands", divs("value", "type", "rejected", "crash"), func(f *feat) bool {
 		// a typed declaration (or an untyped const declaration of float/complex kind) initialised by an
@@ -256,9 +277,27 @@ var rules = []*rule{
 		mixed := f.kind == "spec" && f.T == "" && f.has["floatlit"] && (f.has["shift"] || f.has["intop"])
 		return typedSite || mixed
 	}},
-	{"typed-decl-misfit-accepted", divs("accepted", "crash"), func(f *feat) bool {
+	{"decl-type-pushed-into-untyped-operands", divs("accepted"), func(f *feat) bool {
+		// the same mechanism makes an integer-only operator with a float literal operand acceptable:
+		// const c uint32 = (2 ^ 16) % 1e0
 		typedSite := f.kind == "spec" && f.T != "" || f.kind == "obs" && (f.op == "typed" || f.op == "arg")
-		return typedSite && !f.goOK
+		return typedSite && !f.goOK && f.has["binop"] && (f.goClass == "opundefined" || f.goClass == "shiftoperand")
+	}},
+	{"typed-decl-negative-shift-count-accepted", divs("accepted"), func(f *feat) bool {
+		typedSite := f.kind == "spec" && f.T != "" || f.kind == "obs" && (f.op == "typed" || f.op == "arg")
+		return typedSite && !f.goOK && f.goClass == "negshift"
+	}},
+	{"typed-decl-untyped-bool-accepted", divs("accepted"), func(f *feat) bool {
+		typedSite := f.kind == "spec" && f.T != "" || f.kind == "obs" && (f.op == "typed" || f.op == "arg")
+		return typedSite && !f.goOK && f.T != "bool" && (f.x.kind("bool") || f.goClass == "mismatch" && strings.Contains(f.goMsg, "untyped bool"))
+	}},
+	{"typed-decl-misfit-accepted", divs("accepted"), func(f *feat) bool {
+		// only initialisers with operators: a plain literal that does not fit is rejected correctly
+		typedSite := f.kind == "spec" && f.T != "" || f.kind == "obs" && (f.op == "typed" || f.op == "arg")
+		if !typedSite || f.goOK || !(f.has["binop"] || f.has["unop"]) {
+			return false
+		}
+		return f.goClass == "overflow" || f.goClass == "truncated"
 	}},
 	{"complex-conversion-of-typed-real-rejected", divs("rejected"), func(f *feat) bool {
 		return f.kind == "conv" && isComplexT(f.T) && f.goOK && f.x.valid && !f.x.untyped && !isComplexT(f.x.typ)
